@@ -1313,6 +1313,9 @@ class Message(ABC):
         self._serialized_on_wire = True
         proto_meta = self._betterproto
         read = 0
+        if size == 0:
+            # An empty message: reading on would consume the next message.
+            return self
         for parsed in load_fields(stream):
             field_name = proto_meta.field_name_by_number.get(parsed.number)
             if not field_name:
